@@ -10,7 +10,7 @@ All times are ticks of 2^-30 s. One line in, one line out; outputs of an op are 
   cli <ep> <env> <localip> <localport> <remoteip> <remoteport>
   srv <ep> <env> <ip> <port> <stream 0|1>
   bind <ep> <vport> <type> <key hex|none>
-  link <ep> <ip> <port> <0|1>                       stream transports: a stream client appeared / went away
+  link <ep> <ip> <port> <0|1>                       stream transports: a stream client appeared / went away (server); the client transport's stream is there / gone
   connect <ep> <t> <vport> <type> <unrelid> <check> <sid> (none | <pid> <cid> <sessionkey hex> <internal hex>)
   dgram <ep> <t> <fromip> <fromport> <hex> [<unrelid> <check> <sid>]
   advance <ep> <t>
@@ -173,6 +173,10 @@ def step (st : St) (line : String) : St × String :=
       let streams := t.streams.map (fun (pk, s) => (pk, { s with clients := s.clients.map (fun (k, c) =>
         if k.1 == a then (k, { c with linkUp := up == "1" }) else (k, c)) }))
       ({ st with eps := setS ep (.srv en { t with links, streams } addr lv) st.eps }, "ok")
+    | some (.cli en ct loc rem), some _ =>
+      -- the client transport's one stream: gone / there (every write of its connections raises a StreamError when it is gone)
+      let conns := ct.conns.map (fun (k, c) => (k, { c with linkUp := up == "1" }))
+      ({ st with eps := setS ep (.cli en { ct with conns } loc rem) st.eps }, "ok")
     | _, _ => (st, "bad-op")
   | "connect" :: ep :: t :: vport :: type :: unrel :: check :: sid :: creds =>
     match lookupS ep st.eps, t.toNat?, vport.toNat?, type.toNat?, unrel.toNat?, check.toNat?, sid.toNat? with
